@@ -8,7 +8,7 @@
       Err             = AssertionError;   Fuel = the explicit fuel ran out (excluded in the statements)
     [ns] = g_resolution_no_shadow: [true] is the repaired loop (current tree), [false] the pinned loop (D6). *)
 From Coq Require Import ZArith NArith List Bool Lia.
-From Pi2 Require Import Taut.Model Taut.Stages Taut.Sets Taut.Resolution Taut.Complete Taut.Termination Taut.PLModel Taut.ProofLayer.
+From Pi2 Require Import Taut.Model Taut.Stages Taut.Sets Taut.Resolution Taut.Complete Taut.Termination Taut.PLModel Taut.ProofLayer Taut.BuildTerm.
 Import ListNotations.
 
 (* ------------------------------------------------------------------------------------------ *)
@@ -213,6 +213,20 @@ Proof.
   intros [H|[H|[H|[H|[]]]]]; discriminate.
 Qed.
 Print Assumptions C09_saturate_refuted_shadow.
+
+(** clause-level skeleton of the proof reconstruction: whenever the loop (either variant) reports the
+    empty clause, build_proof_from_hint(hint, frozenset(), clauses) passes its asserts
+    (`term_l[0] == -resolvant`, `term_r[0] == resolvant`, `frozenset(final_term) == cl`, dictionary
+    lookups) and returns the empty clause (`assert not ret_list`) *)
+Theorem C09_build_term_empty : forall ns fuel cls l h,
+  start_resolution ns fuel cls = Ok (Some false, l, h) ->
+  exists n, build_term n h [] cls = Ok [].
+Proof. exact build_term_empty. Qed.
+Print Assumptions C09_build_term_empty.
+Example C09_build_term_nonvacuous :
+  exists l h, start_resolution true 100 [[1]; [-2]; [2; -1]; [3]]%Z = Ok (Some false, l, h) /\
+              build_term 10 h [] [[1]; [-2]; [2; -1]; [3]]%Z = Ok [].
+Proof. eexists _, _. split; vm_compute; reflexivity. Qed.
 
 (* ------------------------------------------------------------------------------------------ *)
 (** * 6. proof layer (schema level, see Taut/PLModel.v) — PARTIAL
